@@ -285,7 +285,21 @@ func ruleC12(w *World, r *Report) {
 				continue
 			}
 			inLoop++
-			r.check(onlyVia(sendReq, ins, positive), "R12.1", sn, fmt.Sprintf("retransmission #%d only while the counter is positive", k+1), w.Pos(c.Pos()), "dominated by counter > 0", "a retransmission is possible with the retry counter exhausted (more than 1+N transmissions)")
+			// 1+N is a bound on the count: there are at most 1 + (passes of the counter > 0 edge)
+			// transmissions when every two consecutive ones have such a pass between them. A send the
+			// test dominates has it behind every earlier one; a send at the top of the loop body is
+			// the first transmission on the way in and a retransmission on the way round, and is within
+			// the bound when no transmission — itself included — leads to it without the pass.
+			guarded := onlyVia(sendReq, ins, positive)
+			if !guarded {
+				guarded = true
+				for _, c2 := range sends {
+					if reach(sendReq, c2.(ssa.Instruction), func(j ssa.Instruction) bool { return j == ins }, nil, positive) != nil {
+						guarded = false
+					}
+				}
+			}
+			r.check(guarded, "R12.1", sn, fmt.Sprintf("retransmission #%d only while the counter is positive", k+1), w.Pos(c.Pos()), "dominated by counter > 0", "a retransmission is possible with the retry counter exhausted (more than 1+N transmissions)")
 			// every way from this send back to the loop head carries the decrement
 			okDec := true
 			for i, p := range hdr.Preds {
